@@ -35,6 +35,23 @@ attribute [simp] V1.map V2.map V3.map V4.map V1.zip V2.zip V3.zip V4.zip
   M3.transformVector2 M3.transformPoint2 M3.transformVector M3.transformPoint
   M4.transformVector M4.transformPoint
 
+@[simp] theorem M4.flat_0 {α : Type} (m : M4 α) : m.flat 0 = m.x.x := rfl
+@[simp] theorem M4.flat_1 {α : Type} (m : M4 α) : m.flat 1 = m.x.y := rfl
+@[simp] theorem M4.flat_2 {α : Type} (m : M4 α) : m.flat 2 = m.x.z := rfl
+@[simp] theorem M4.flat_3 {α : Type} (m : M4 α) : m.flat 3 = m.x.w := rfl
+@[simp] theorem M4.flat_4 {α : Type} (m : M4 α) : m.flat 4 = m.y.x := rfl
+@[simp] theorem M4.flat_5 {α : Type} (m : M4 α) : m.flat 5 = m.y.y := rfl
+@[simp] theorem M4.flat_6 {α : Type} (m : M4 α) : m.flat 6 = m.y.z := rfl
+@[simp] theorem M4.flat_7 {α : Type} (m : M4 α) : m.flat 7 = m.y.w := rfl
+@[simp] theorem M4.flat_8 {α : Type} (m : M4 α) : m.flat 8 = m.z.x := rfl
+@[simp] theorem M4.flat_9 {α : Type} (m : M4 α) : m.flat 9 = m.z.y := rfl
+@[simp] theorem M4.flat_10 {α : Type} (m : M4 α) : m.flat 10 = m.z.z := rfl
+@[simp] theorem M4.flat_11 {α : Type} (m : M4 α) : m.flat 11 = m.z.w := rfl
+@[simp] theorem M4.flat_12 {α : Type} (m : M4 α) : m.flat 12 = m.w.x := rfl
+@[simp] theorem M4.flat_13 {α : Type} (m : M4 α) : m.flat 13 = m.w.y := rfl
+@[simp] theorem M4.flat_14 {α : Type} (m : M4 α) : m.flat 14 = m.w.z := rfl
+@[simp] theorem M4.flat_15 {α : Type} (m : M4 α) : m.flat 15 = m.w.w := rfl
+
 /-- unfold the model and finish with `ring` on every component -/
 macro "cg_ring" : tactic =>
   `(tactic| (first
